@@ -1,5 +1,5 @@
 """Which rules and witnesses decide which property."""
-from . import shared_state, surface, entry
+from . import shared_state, surface, entry, tables, dirflow
 
 RULES = {
     "R-NOCELL": shared_state.r_nocell,
@@ -13,6 +13,11 @@ RULES = {
     "R-ENTRY": entry.r_entry,
     "R-HELPER": entry.r_helper,
     "R-ERRSINK": entry.r_errsink,
+    "R-TABLES": tables.r_tables,
+    "R-CACHE": tables.r_cache,
+    "R-ZEROGUARD": tables.r_zeroguard,
+    "R-DFTBOUND": tables.r_dftbound,
+    "R-DIRFLOW": dirflow.r_dirflow,
 }
 
 PROPS = {
@@ -68,5 +73,58 @@ PROPS = {
         "decides": "ill-shaped => panic; normal return => every chunk visited; loop guard admits every well-shaped length",
         "does_not_decide": "well-shaped => no panic inside kernels (depends on inner scratch arithmetic)",
         "assumptions": ["length-0 transforms return early by design (chunk_size == 0) and are outside the statement", "x86_64 non-test code"],
+    },
+    "C04": {
+        "level": "other",
+        "rules": ["R-TABLES", "R-DIRFLOW", "R-ZEROGUARD"],
+        "witnesses": [],
+        "explanation": "Handler exhaustiveness and agreement of the planner tables, for every n: (R-TABLES) length literal -> Recipe variant -> "
+                       "Recipe::len constant -> constructor type -> that type's Length::len constant agree for the scalar and SSE planners (both "
+                       "element-type constructors), prime_butterfly_lens() equals the arms of construct_prime_butterfly in both type branches, the AVX "
+                       "is_butterfly lists and every butterfly literal of plan_mixed_radix_base (and 0..9 from plan_fft) are constructor arms whose type "
+                       "reports that length, every hard-coded plan satisfies base*radixes = key, every radix literal a planner can push has a "
+                       "non-unreachable arm in construct_plan, recipe matches have no wildcard; (R-DIRFLOW) the requested direction is the only "
+                       "direction any constructor receives and fft_direction() reads it back; (R-ZEROGUARD) length 0 never reaches a factoriser.",
+        "decides": "no design-stage product can reach an 'Invalid butterfly len'/unreachable!() arm; reported len() and fft_direction() of planned butterflies/recipes equal the request",
+        "does_not_decide": "panics that depend on residues of n (asserts in design_radixn, plan_bluesteins, divide_by().unwrap(), *Small preconditions)",
+        "assumptions": ["x86_64 non-test code; neon/wasm planners are the always-Err stubs here"],
+    },
+    "C05": {
+        "level": "other",
+        "rules": ["R-DFTBOUND"],
+        "witnesses": [],
+        "explanation": "Clause 2 only: every call of Dft::new outside algorithm/dft.rs (who-may-call inventory) receives a length whose static upper "
+                       "bound is <= 32: literal, match-arm value, dominating comparison edge, or the payload bound of Recipe::Dft joined over all "
+                       "of its construction sites (copies by derive(Clone) preserve it). The operation-count and scratch-size clauses quantify "
+                       "over run-time quantities and are NOT decided.",
+        "decides": "no planner can place a naive quadratic sub-transform longer than 32 (actually: longer than 1) in a plan",
+        "does_not_decide": "operation count <= 64 n log2 n; advertised scratch <= 12n+64",
+        "assumptions": ["x86_64 non-test code"],
+    },
+    "C06": {
+        "level": "other",
+        "rules": ["R-CACHE", "R-DIRFLOW"],
+        "witnesses": [],
+        "explanation": "Forward/inverse separation: (R-CACHE) get/contains_fft/insert agree on direction -> map, insert keys by len() and selects by "
+                       "fft_direction() of the very instance inserted, all planner look-ups pass their own direction parameter; (R-DIRFLOW) in every "
+                       "function the direction stored in the struct, given to every twiddle generator and to every sub-constructor comes from one "
+                       "source (own parameter, or fft_direction() of one inner transform with the other asserted equal); the only inversions are the "
+                       "Bluestein kernel chirp and direction_of. A planner asked for d therefore cannot return anything assembled with another "
+                       "direction, for any request history.",
+        "decides": "a planned transform is built with the requested direction throughout; caches cannot mix directions",
+        "does_not_decide": "the value identity ifft(fft(x)) = n x, rotation sign tables (bit masks), absence of scaling",
+        "assumptions": ["x86_64 non-test code"],
+    },
+    "C10": {
+        "level": "other",
+        "rules": ["R-CACHE", "R-NONDET", "R-NOSTATIC", "R-DIRFLOW"],
+        "witnesses": [],
+        "explanation": "Cache integrity and determinism of planning: an entry is filed under len()/fft_direction() of the stored object itself, so no "
+                       "request history can make a lookup for (n,d) return an object that claims otherwise; look-ups use the requested direction; the crate "
+                       "(hence every planner) contains no hash-order iteration, clock, RNG, environment, thread-id, address-to-integer or static "
+                       "state, so equal request sequences build equal plans. Instances own their parts through Arc (W-API ascribes 'static).",
+        "decides": "cache entries always satisfy their key; planning is a function of the request sequence and CPU feature bits",
+        "does_not_decide": "that each spliced plan computes the DFT (C01); index arithmetic of replan_with_cache",
+        "assumptions": ["x86_64 non-test code"],
     },
 }
